@@ -229,6 +229,64 @@ func (r *rcx) checkBound(where string) *finding {
 	return nil
 }
 
+// padLens are the directed pad lengths of the padded-discard family.
+func padLenFor(i int, rng *rand.Rand) int {
+	switch i % 4 {
+	case 0:
+		return 1
+	case 1:
+		return 17
+	case 2:
+		return 255
+	}
+	return rng.Intn(256)
+}
+
+// sendPaddedSmall sends n PADDED DATA frames with 0..3 data bytes each on u,
+// never exceeding what the implementation advertised (streamToo: also the
+// stream window). It returns the flow-controlled bytes and the padding sent.
+func (r *rcx) sendPaddedSmall(u *up, n int, streamToo bool) (flow, padFlow int64, frames int, f *finding) {
+	l := r.l
+	for i := 0; i < n; i++ {
+		padLen := padLenFor(i, r.rng)
+		dl := 1 + r.rng.Intn(3)
+		if i%11 == 10 {
+			dl = 0
+		}
+		need := int64(1 + padLen + dl)
+		allow := func() int64 {
+			a := l.ConnSendAllowance()
+			if streamToo {
+				if sa := l.StreamSendAllowance(u.sid); sa < a {
+					a = sa
+				}
+			}
+			return a
+		}
+		if allow() < need {
+			if f := r.fence(); f != nil {
+				return flow, padFlow, frames, f
+			}
+			if allow() < need {
+				if streamToo && l.StreamSendAllowance(u.sid) < need && l.ConnSendAllowance() >= need {
+					return flow, padFlow, frames, nil // stream window used up (it is not refunded on this path)
+				}
+				return flow, padFlow, frames, &finding{class: r.pre + "credit-not-returned", msg: fmt.Sprintf("%s: after %d padded DATA frames (%d flow-controlled bytes, all discarded by the implementation) the connection window stays at %d, un-returned credit %d", r.c.Sub, frames, flow, l.ConnSendAllowance(), r.unreturned())}
+			}
+		}
+		b := make([]byte, dl)
+		h2peer.FillBody(u.key, u.off, b)
+		u.off += int64(dl)
+		if err := l.Data(u.sid, false, b, padLen); err != nil {
+			return flow, padFlow, frames, &finding{class: r.pre + "write", msg: err.Error() + " " + r.ended(), incon: r.ended() == ""}
+		}
+		flow += need
+		padFlow += int64(1 + padLen)
+		frames++
+	}
+	return flow, padFlow, frames, nil
+}
+
 // ------------------------------------------------------------------ rig S
 
 func runRecvS(c *recvCase) *finding {
@@ -439,6 +497,88 @@ func runRecvS(c *recvCase) *finding {
 			return f
 		}
 		return r.checkBound("padded body consumed, stream closed")
+
+	case "padleak":
+		// Directed: padded DATA that the server discards must be refunded in
+		// full (pad-length octet + data + padding) at connection level.
+		pl := &plan{Abort: -1, Resp: int64(rng.Intn(50))}
+		var u *up
+		var f *finding
+		open1 := func() *finding { u, f = open(1, pl); return f }
+		streamOpen := false
+		switch c.Sub {
+		case "body-closed": // handler closes the body at once and keeps the stream open
+			pl.Req, pl.finish = "close", make(chan struct{})
+			if f := open1(); f != nil {
+				return f
+			}
+			if !waitCh(pl.bodyClosed) {
+				return &finding{class: r.pre + "handler", msg: "handler did not close the body: " + r.ended(), incon: true}
+			}
+			streamOpen = true
+		case "part-closed": // handler reads exactly what was sent, then closes the body
+			k := int64(1 + rng.Intn(5000))
+			pl.Req, pl.ReqN, pl.finish = "partclose", k, make(chan struct{})
+			if f := open1(); f != nil {
+				return f
+			}
+			sendFlow(l, u, k, false, rng, false)
+			if !waitCh(pl.bodyClosed) {
+				return &finding{class: r.pre + "handler", msg: "handler did not close the body: " + r.ended(), incon: true}
+			}
+			streamOpen = true
+		case "handler-done": // handler returned without reading
+			pl.Req = "ignore"
+			if f := open1(); f != nil {
+				return f
+			}
+			if !waitCh(pl.done) {
+				return &finding{class: r.pre + "handler", msg: "handler did not return", incon: true}
+			}
+			l.WaitUntil(watchdog, func() bool { return l.Stream(u.sid).ImplReset })
+		case "server-reset": // handler aborted: RST_STREAM from the server
+			pl.Req, pl.ReqN, pl.Resp, pl.Abort = "part", 10, 100, 1
+			if f := open1(); f != nil {
+				return f
+			}
+			sendFlow(l, u, 10, false, rng, false)
+			if !waitCh(pl.done) {
+				return &finding{class: r.pre + "handler", msg: "handler did not return", incon: true}
+			}
+			l.WaitUntil(watchdog, func() bool { return l.Stream(u.sid).ImplReset })
+		}
+		if f := r.fence(); f != nil {
+			return f
+		}
+		n := 100 + rng.Intn(201)
+		flow, padFlow, frames, f := r.sendPaddedSmall(u, n, streamOpen)
+		if f != nil {
+			return f
+		}
+		if f := r.fence(); f != nil {
+			return f
+		}
+		r.logf("%s: %d padded frames, %d flow-controlled bytes of which %d padding; un-returned %d", c.Sub, frames, flow, padFlow, r.unreturned())
+		run.Add("padded-discard-frames", int64(frames))
+		run.Add("padded-discard-checks", 1)
+		if f := r.checkBound(fmt.Sprintf("%s: %d padded DATA frames (%d flow-controlled bytes, %d of them padding) discarded by the server", c.Sub, frames, flow, padFlow)); f != nil {
+			return f
+		}
+		if st := l.Stream(u.sid); streamOpen && st.ImplReset {
+			return &finding{class: r.pre + "unexpected-reset", msg: fmt.Sprintf("stream %d was reset (%v) although the peer stayed within the advertised windows", u.sid, st.ImplResetCode)}
+		}
+		if pl.finish != nil {
+			close(pl.finish)
+			if !waitCh(pl.done) {
+				return &finding{class: r.pre + "handler", msg: "handler did not return", incon: true}
+			}
+			l.WaitUntil(watchdog, func() bool { st := l.Stream(u.sid); return st.Ended || st.ImplReset })
+			if f := r.fence(); f != nil {
+				return f
+			}
+			return r.checkBound(c.Sub + ": stream closed")
+		}
+		return r.ledgerFinding()
 
 	case "closed":
 		// DATA for streams the server no longer wants: connection-level credit must come back.
@@ -724,6 +864,47 @@ func runRecvT(c *recvCase) *finding {
 		}
 		return r.checkBound("padded body consumed, stream closed")
 
+	case "padleak":
+		// Directed: padded DATA for a response the client has finished with.
+		q := &treq{}
+		pre := int64(0)
+		switch c.Sub {
+		case "body-closed":
+			q.Resp = "close"
+		case "cancel":
+			q.Resp, q.RespN = "cancel", 100
+			pre = 100 + rng.Int63n(5000)
+		case "part":
+			q.Resp, q.RespN = "part", 1+rng.Int63n(1000)
+			pre = 1000 + rng.Int63n(5000)
+		}
+		u, f := open(1, q)
+		if f != nil {
+			return f
+		}
+		if pre > 0 {
+			sendFlow(l, u, pre, false, rng, false)
+		}
+		// half of the cases race the client's Close with the padded frames
+		if c.N == 0 && !waitCh(q.done) {
+			return &finding{class: r.pre + "client", msg: "client goroutine did not return: " + r.ended(), incon: r.ended() == ""}
+		}
+		n := 100 + rng.Intn(201)
+		flow, padFlow, frames, f := r.sendPaddedSmall(u, n, false)
+		if f != nil {
+			return f
+		}
+		if !waitCh(q.done) {
+			return &finding{class: r.pre + "client", msg: "client goroutine did not return: " + r.ended(), incon: r.ended() == ""}
+		}
+		if f := r.fence(); f != nil {
+			return f
+		}
+		r.logf("%s: %d padded frames, %d flow-controlled bytes of which %d padding; un-returned %d", c.Sub, frames, flow, padFlow, r.unreturned())
+		run.Add("padded-discard-frames", int64(frames))
+		run.Add("padded-discard-checks", 1)
+		return r.checkBound(fmt.Sprintf("%s: %d padded DATA frames (%d flow-controlled bytes, %d of them padding) for a response the client had finished with", c.Sub, frames, flow, padFlow))
+
 	case "closed":
 		var sentTotal int64
 		for i := 1; sentTotal < 600000; i++ {
@@ -845,6 +1026,16 @@ func recvCases() []kase {
 		add(&recvCase{Rig: "T", Kind: "accept"})
 		add(&recvCase{Rig: "T", Kind: "padding"})
 		add(&recvCase{Rig: "T", Kind: "settings-overflow-probe"})
+		for _, sub := range []string{"body-closed", "part-closed", "handler-done", "server-reset"} {
+			for _, conn := range []int32{65535, 1 << 20} {
+				add(&recvCase{Rig: "S", Kind: "padleak", Sub: sub, UpStr: 1 << 20, UpConn: conn})
+			}
+		}
+		for _, sub := range []string{"body-closed", "cancel", "part"} {
+			for n := 0; n < 2; n++ {
+				add(&recvCase{Rig: "T", Kind: "padleak", Sub: sub, N: n})
+			}
+		}
 		for j, sub := range []string{"body-closed", "cancel", "part", "peer-reset"} {
 			add(&recvCase{Rig: "T", Kind: "closed", Sub: sub, Pad: j%2 == 0})
 		}
